@@ -1,5 +1,7 @@
-import Banyan.Model.Util
+import Banyan.Model.C02
 open Banyan
 
-/- stub: model driver for C02 not built yet -/
-def main : IO Unit := runDriver fun _ => "bad-op"
+/-- model driver for C02 (protocol: hooks/banyand/internal/verifdrv/mrw/main.go).
+    `legacy` as first argument runs `mustInitFromDataPoints` with the zero sentinels of the pinned commit. -/
+def main (args : List String) : IO Unit :=
+  runDriver (Store.Proto.handleWith (if args.contains "legacy" then C02.cfgLegacy else C02.cfg))
